@@ -25,6 +25,7 @@ PROP = {
             "C15_total": "full: parse is a total function of arbitrary N lists; its type has no panic outcome by construction and the loop fuel (None) is proved never exhausted; && / leading / trailing '&' laws; closed form parse_spec",
             "C15_suffix": "full, stronger than asked: the existing suffix may be ANY text (not only serializer output); histories may contain clear and encoding_override (the read-back pairs are then given by ops_effect, with utf8_lossy of the override's bytes); exclusion ~Known_C15_1 (F-C15-1)",
             "C15_suffix_generic": "the same over any Target satisfying the three lens laws; this is the lemma the URL-editing clause (Url::query_pairs_mut, maintainer's part) instantiates; the clause itself is NOT part of this file",
+            "C15_url": "full (coq/Proofs/C15_Url.v, over Model/QueryPairs.v): for every well-formed Url with an ASCII serialization (premises wf_b u = true and Forall (<128) (ser u); both hold for every reachable Url by C03/C05) and every history of op_ok operations, in debug and release: query_pairs_session succeeds; query_pairs of the result = ops_effect on the pairs of the old query text (retained pairs followed by appended ones; clear and encoding_override handled by ops_effect); the seven offsets/host kind/port before the query, the bytes before the '?' and hence scheme, username, password, host_str, path are unchanged; the fragment is preserved; wf_b holds again. No Known_C15_1 exclusion is needed here because an ASCII string has a char boundary everywhere. finish() and Drop are the same model step (both restore the fragment); a leaked (mem::forget) serializer is outside the statement (DESIGN section 10)",
             "C15_panics": "exact characterisation of every Panic outcome of for_suffix / finish / each operation, for any Target; OutOfFuel proved impossible",
             "C15_views": "ByteSerialize chunks concatenate to the per-byte map and are non-empty, size_hint bounds, Parse with Cow kinds agrees with ParseIntoOwned, replace_plus borrows iff there is no '+'",
             "C15_borrow": "decode() (names and values yielded by Parse) is Cow::Borrowed iff the input has no '+', no decodable escape and is valid UTF-8; its value is always utf8_lossy(percent_decode(replace_plus(input)))",
@@ -32,8 +33,8 @@ PROP = {
     }
 
 TEXT = {
-  "level": "Machine-checked Coq theorems (12, all closed under the global context) about an executable Gallina model of the whole form_urlencoded crate (Parse::next, decode, replace_plus, ParseIntoOwned, byte_serialize iterator, Serializer over a generic Target with for_suffix / clear / append_pair / append_key_only / extend_* / encoding_override / finish): round trip for all pair lists and all append-only histories, output alphabet for all histories, totality and closed form of parse with the '&&' laws, the for_suffix theorem for an arbitrary existing suffix and an arbitrary lens-like Target, and the exact set of panics. The byte_serialized_unchanged class, the separator / plus / space literals and the panic sites are regenerated from the Rust source on every run and the table theorem re-proved. The model is tied to the code by a correspondence run (exhaustive small scopes + random, about 330 000 cases quick) of the extracted model against the crate built from /repo.",
+  "level": "Machine-checked Coq theorems (13, all closed under the global context) about an executable Gallina model of the whole form_urlencoded crate (Parse::next, decode, replace_plus, ParseIntoOwned, byte_serialize iterator, Serializer over a generic Target with for_suffix / clear / append_pair / append_key_only / extend_* / encoding_override / finish): round trip for all pair lists and all append-only histories, output alphabet for all histories, totality and closed form of parse with the '&&' laws, the for_suffix theorem for an arbitrary existing suffix and an arbitrary lens-like Target, the exact set of panics, and the URL-editing clause (C15_url: a query_pairs_mut session on a well-formed ASCII Url reads back through query_pairs as retained pairs followed by appended ones, leaves everything before the query and the fragment unchanged, and keeps the record well formed). The byte_serialized_unchanged class, the separator / plus / space literals and the panic sites are regenerated from the Rust source on every run and the table theorem re-proved. The model is tied to the code by a correspondence run (exhaustive small scopes + random, about 330 000 cases quick) of the extracted model against the crate built from /repo.",
   "design_ref": "DESIGN.md section 8 C15, sections 4 and 6",
-  "note": "Crate-level part of C15; the URL-editing clause (Url::query_pairs_mut / query_pairs) is not covered here - it is to be layered on C15_suffix_generic. Trusted: Coq kernel + vm_compute; tools/tables_c15.py; extraction (ExtrOcamlBasic only) + OCaml driver; the correspondence generators; std's from_utf8_lossy / is_char_boundary / String::truncate are modelled and cross-checked, not verified. Known finding F-C15-1: clear() panics when start_position is inside a multi-byte character (undocumented panic).",
+  "note": "Both parts of C15: the form_urlencoded crate and the URL-editing clause (C15_url, over the maintainer's Model/QueryPairs.v, instantiating C15_suffix_generic with the UrlQuery target). Trusted: Coq kernel + vm_compute; tools/tables_c15.py; extraction (ExtrOcamlBasic only) + OCaml driver; the correspondence generators; std's from_utf8_lossy / is_char_boundary / String::truncate are modelled and cross-checked, not verified. Known finding F-C15-1: clear() panics when start_position is inside a multi-byte character (undocumented panic).",
   "technique": "Coq proof over Gallina model + table translator + extracted-model/implementation correspondence",
  }
